@@ -88,6 +88,18 @@ func valueMayBeNilAt(v ssa.Value, at ssa.Instruction) bool {
 			return false
 		}
 	}
+	// constructors and wrappers: errors.New / fmt.Errorf are never nil, errors.Wrap(err, …) is
+	// nil exactly when err is
+	if call, ok := ir.Canon(v).(*ssa.Call); ok {
+		if f := call.Call.StaticCallee(); f != nil && f.Pkg != nil {
+			switch pk := f.Pkg.Pkg.Path(); {
+			case (pk == "errors" || pk == "github.com/pkg/errors") && (f.Name() == "New" || f.Name() == "Errorf"), pk == "fmt" && f.Name() == "Errorf":
+				return false
+			case pk == "github.com/pkg/errors" && (f.Name() == "Wrap" || f.Name() == "Wrapf" || f.Name() == "WithStack" || f.Name() == "WithMessage" || f.Name() == "WithMessagef") && len(call.Call.Args) > 0:
+				return valueMayBeNilAt(call.Call.Args[0], at)
+			}
+		}
+	}
 	// multierr.Append(err, x) where err is known non-nil
 	if call, ok := v.(*ssa.Call); ok {
 		if f := call.Call.StaticCallee(); f != nil && (f.Name() == "Append" || f.Name() == "Combine") {
@@ -157,28 +169,41 @@ func ruleR09b(h *H) {
 		for i, m := range muts {
 			n++
 			name := fmt.Sprintf("%s: segment %s #%d", ir.FuncName(fn), m.what, i+1)
-			bad := ""
-			var w []int
-			ir.Instrs(fn, func(in ssa.Instruction) {
-				ret, ok := in.(*ssa.Return)
-				if !ok || bad != "" || !returnErrMayBeNil(ret) {
-					return
-				}
-				for _, f := range m.fields {
-					// paths on which the mutation itself failed do not count: block the error edges
-					blocked := map[ir.Edge]bool{}
-					if ev := ir.ErrResult(m.call); ev != nil {
-						for _, t := range ir.NilTests(ev) {
-							blocked[ir.Edge{From: t.If.Block(), To: t.NonNil}] = true
+			// after a successful mutation every exit that may report success stores the
+			// offsets; when the mutating function is an extracted single-call-site helper,
+			// the obligation continues in its caller behind the call
+			var after func(f *ssa.Function, call ssa.CallInstruction, depth int) (string, []int)
+			after = func(f *ssa.Function, call ssa.CallInstruction, depth int) (string, []int) {
+				bad := ""
+				var w []int
+				ir.Instrs(f, func(in ssa.Instruction) {
+					ret, ok := in.(*ssa.Return)
+					if !ok || bad != "" || !returnErrMayBeNil(ret) {
+						return
+					}
+					for _, fld := range m.fields {
+						// paths on which the mutation itself failed do not count: block the error edges
+						blocked := map[ir.Edge]bool{}
+						if ev := ir.ErrResult(call); ev != nil {
+							for _, t := range ir.NilTests(ev) {
+								blocked[ir.Edge{From: t.If.Block(), To: t.NonNil}] = true
+							}
+						}
+						if r, path := ir.Reach(ir.Search{From: call, Barrier: isStoreOf(fld), Blocked: blocked}, ir.Is(in)); r {
+							if site := ir.SingleCallSite(f); site != nil && depth < 3 {
+								if b2, _ := after(site.Parent(), site, depth+1); b2 == "" {
+									continue
+								}
+							}
+							// a later (retry) mutation on the path is checked on its own
+							bad = fmt.Sprintf("after the segment %s succeeded the method can return (possibly nil error) at %s without storing %s: LastOffset() and the next-offset check no longer match the log", m.what, h.pos(in), fld)
+							w = path
 						}
 					}
-					if r, path := ir.Reach(ir.Search{From: m.call, Barrier: isStoreOf(f), Blocked: blocked}, ir.Is(in)); r {
-						// a later (retry) mutation on the path is checked on its own
-						bad = fmt.Sprintf("after the segment %s succeeded the method can return (possibly nil error) at %s without storing %s: LastOffset() and the next-offset check no longer match the log", m.what, h.pos(in), f)
-						w = path
-					}
-				}
-			})
+				})
+				return bad, w
+			}
+			bad, w := after(fn, m.call, 0)
 			h.Verdict(bad == "", rule, name, h.pos(m.call), "every successful exit stores the offsets", bad, witness(w))
 		}
 	}
